@@ -1,4 +1,4 @@
-import Astria.Ledger.Theorems
+import Astria.Ledger.Escrow
 /-
   C18 — IBC transfers: exact escrow accounting; a failed receive has no side effects.
 -/
@@ -26,6 +26,14 @@ theorem C18_recv_exact (s s' : State) (p : RecvPacket) (ok : Bool) (a : String)
     (total s' a : Int) = total s a +
       (if ok = true ∧ hasLeading p.denom p.srcChan = false ∧ recvAsset p = a then (p.amount : Int) else 0) :=
   recvPacket_total s s' p ok a h
+
+/-- The escrow identity, for every channel and asset, along EVERY history (transactions valid or
+    failing, packets acknowledged or rejected, refunds, block ends) from any state: escrow now +
+    everything returned or refunded over the channel = escrow at the start + everything sent out
+    over it. -/
+theorem C18_escrow_identity (k : Nat × String) (ops : List Op) (s : State) :
+    getN (run s ops).esc k + totalReturned k s ops = getN s.esc k + totalSent k s ops :=
+  escrow_identity k ops s
 
 /-- The pinned handler kept the effects made before the failing step (fixed by `fix:` commit
     5215c1f; replay in corpus/ledger.ops). -/
